@@ -10,7 +10,11 @@ export CARGO_NET_OFFLINE=true
 clean_bin=/tmp/confirm-clean/$(git -C /repo rev-parse --short HEAD)/cicada
 if [ ! -x "$clean_bin" ]; then
   mkdir -p "$(dirname "$clean_bin")"
-  (cd /repo && CARGO_TARGET_DIR=/tmp/confirm-clean/target cargo build --offline -q 2>/dev/null) && cp /tmp/confirm-clean/target/debug/cicada "$clean_bin"
+  # from a worktree of HEAD: /repo's working tree may carry a change under trial at this moment
+  cw=$(mktemp -d /tmp/confirm-cleanwt.XXXXXX); rmdir "$cw"
+  git -C /repo worktree add -q --detach "$cw" HEAD
+  (cd "$cw" && CARGO_TARGET_DIR=/tmp/confirm-clean/target cargo build --offline -q 2>/dev/null) && cp /tmp/confirm-clean/target/debug/cicada "$clean_bin"
+  git -C /repo worktree remove --force "$cw" 2>/dev/null; rm -rf "$cw"
 fi
 git -C /repo worktree add -q --detach "$wt" HEAD || exit 2
 res() { echo "{\"applies\": $1, \"builds\": $2, \"tests_pass\": $3, \"demo_fails_with\": $4, \"demo_passes_without\": $5, \"head\": \"$(git -C /repo rev-parse --short HEAD)\"}" > "$out"; cat "$out"; }
